@@ -167,6 +167,21 @@ def compact_faults(base: EBase, other: EBase | None, tier, rng):
             yield f"{names[si]}-extend", f"+{n}", ".".join(p)
             p[si] = b64u_enc(rng.randbytes(n) + data)
             yield f"{names[si]}-extend", f"{n}+", ".".join(p)
+    # paired length faults: the ciphertext/tag (and IV/ciphertext) boundary moved, total octets unchanged
+    ct, tg, ivb = dec[3], dec[4], dec[2]
+    for n in sorted({1, 2, 4, 8, 12, len(tg) - 1, len(tg)}):
+        if 0 < n <= len(tg):
+            p = list(segs)
+            p[3], p[4] = b64u_enc(ct + tg[:n]), b64u_enc(tg[n:])
+            yield "tag-boundary-shift", f"tag->ct {n}", ".".join(p)
+        if 0 < n <= len(ct):
+            p = list(segs)
+            p[3], p[4] = b64u_enc(ct[:-n]), b64u_enc(ct[-n:] + tg)
+            yield "tag-boundary-shift", f"ct->tag {n}", ".".join(p)
+        if 0 < n < len(ivb):
+            p = list(segs)
+            p[2], p[3] = b64u_enc(ivb[:-n]), b64u_enc(ivb[-n:] + ct)
+            yield "iv-boundary-shift", f"iv->ct {n}", ".".join(p)
     alg = base.recs[0]["alg"]
     if g.is_direct(alg):
         for ek in (b"\0", b"\0" * 8, rng.randbytes(24), rng.randbytes(40)):
@@ -241,6 +256,16 @@ def json_faults(base: EBase, other: EBase | None, tier, rng):
         t = copy.deepcopy(tok)
         t["aad"] = b64u_enc(b"injected")
         yield "aad-added", "", t
+    ctj, tgj = b64u_dec(tok["ciphertext"]), b64u_dec(tok["tag"])
+    for n in sorted({1, 4, 8, len(tgj) - 1, len(tgj)}):
+        if 0 < n <= len(tgj):
+            t = copy.deepcopy(tok)
+            t["ciphertext"], t["tag"] = b64u_enc(ctj + tgj[:n]), b64u_enc(tgj[n:])
+            yield "tag-boundary-shift", f"tag->ct {n}", t
+        if 0 < n <= len(ctj):
+            t = copy.deepcopy(tok)
+            t["ciphertext"], t["tag"] = b64u_enc(ctj[:-n]), b64u_enc(ctj[-n:] + tgj)
+            yield "tag-boundary-shift", f"ct->tag {n}", t
     for member in ("iv", "tag"):
         data = b64u_dec(tok[member])
         for n in range(len(data)):
@@ -573,7 +598,7 @@ def run_shard(ctx):
             if o.ok:
                 b2 = EBase("compact", o.value, {}, base.plaintext, base.recs, json.loads(b64u_dec(o.value.split(".")[0])))
                 run_base(mon, b2, None, ctx, families={"respell-protected", "noncanonical-b64-protected", "bitflip-tag", "bitflip-iv", "tag-truncate",
-                                                       "iv-truncate", "tag-extend", "nonempty-ek-direct", "zip-added"})
+                                                       "iv-truncate", "tag-extend", "nonempty-ek-direct", "zip-added", "tag-boundary-shift", "iv-boundary-shift"})
     mon.tr.stop()
 
 
